@@ -5,7 +5,8 @@ from . import tracker_common as tc
 
 def run_pairs(chk, data, max_hist):
     hists, runs, corr = data["hists"], data["runs"], data["corr"]
-    cand = [k for k, h in enumerate(hists) if len(tc.scenes_of(h)) >= 2 and tc.tie_free(h, runs[k])][:max_hist]
+    cand = [k for k, h in enumerate(hists) if len(tc.scenes_of(h)) >= 2 and tc.tie_free(h, runs[k])]
+    cand = [k for k in cand if not tc.is_visual(hists[k])][:max_hist] + [k for k in cand if tc.is_visual(hists[k])][:max(40, max_hist // 4)]
     variants = []
     for k in cand:
         for s in tc.scenes_of(hists[k]):
